@@ -324,6 +324,10 @@ static int opt_work (
 		}
 		p->basis = p2->basis;
 		p2->basis = 0;
+		/* the steepest-edge row norms stored with that basis are those of the
+		 * scaled matrix (and unfinished if the scaled solve hit a limit): the
+		 * solve below has to build its own */
+		EGLPNUM_TYPENAME_EGlpNumFreeArray (p->basis->rownorms);
 		EGLPNUM_TYPENAME_QSfree_prob (p2);
 		p2 = 0;
 	}
